@@ -108,6 +108,61 @@ def union_is_false(test, flag, ev, env):
         return False
 
 
+def binds(call, init):
+    """does the call's argument list bind against the constructor `init` (self excluded)?"""
+    a = init.args
+    pos = [x.arg for x in a.args[1:]]
+    npos = len([x for x in call.args if not isinstance(x, ast.Starred)])
+    if any(isinstance(x, ast.Starred) for x in call.args) or any(k.arg is None for k in call.keywords):
+        return True
+    if npos > len(pos) and a.vararg is None:
+        return False
+    kws = [k.arg for k in call.keywords]
+    for k in kws:
+        if k in pos[:npos]:
+            return False
+        if k not in pos and k not in [x.arg for x in a.kwonlyargs] and a.kwarg is None:
+            return False
+    required = pos[:len(pos) - len(a.defaults)]
+    return all(r in pos[:npos] or r in kws for r in required)
+
+
+def check_result_class(ctx, m, fn, self_):
+    """R05.5: the result is handed back in the class of the argument through `upgrade`; a direct `type(self)(...)` must bind against the constructor
+    of every diagram subclass (several have their own signatures: Id(dom), cartesian.Swap(left, right), IQPansatz(n_qubits, params), ...)"""
+    D = m.cls("discopy.monoidal.Diagram")
+    for r in [x for x in ast.walk(fn) if isinstance(x, ast.Return) and x.value is not None]:
+        v = r.value
+        if isinstance(v, ast.Call) and isinstance(v.func, ast.Call) and ast.unparse(v.func) == "type(%s)" % self_:
+            bad = []
+            for c in sorted(m.subclasses(D), key=lambda c: c.q):
+                init = m.lookup(c, "__init__")
+                if init and isinstance(init[1], ast.FunctionDef) and not binds(v, init[1]):
+                    bad.append("%s(%s)" % (c.q, ", ".join(x.arg for x in init[1].args.args[1:])))
+            ctx.ob("R05.5", FN + ":result-class", not bad, found="`%s` does not bind against the constructors of %s" % (ast.unparse(v)[:70], ", ".join(bad[:4]) + (" …" if len(bad) > 4 else "")) if bad else ast.unparse(v)[:80],
+                   required="the result is built as a monoidal Diagram and handed to self.upgrade (subclasses of Diagram have constructors with other signatures)", mod=M, node=r, sig="result-class")
+        elif isinstance(v, ast.Call) and ast.unparse(v.func) == self_ + ".upgrade" and len(v.args) == 1 and isinstance(v.args[0], ast.Call) and \
+                m.resolve_class(M, ast.unparse(v.args[0].func)) is D:
+            ctx.ob("R05.5", FN + ":result-class", True, found=ast.unparse(v.func) + "(Diagram(...))", required="built as a monoidal Diagram, upgraded to the class of the argument", mod=M, node=r)
+
+
+def check_refusal_ctor(ctx, m):
+    """R05.6: refusing a move must itself not fail: the boxes of a layer may be arbitrary diagrams, so InterchangerError reads of them only what every diagram has"""
+    ie = m.cls("discopy.rewriting.InterchangerError")
+    init = ie.methods.get("__init__")
+    ctx.need(init is not None, "InterchangerError has no constructor")
+    fn = init[0]
+    D = m.cls("discopy.monoidal.Diagram")
+    params = [a.arg for a in fn.args.args[1:]]
+    bad = []
+    for x in ast.walk(fn):
+        if isinstance(x, ast.Attribute) and isinstance(x.value, ast.Name) and x.value.id in params and isinstance(x.ctx, ast.Load):
+            if m.lookup(D, x.attr) is None and x.attr not in ("dom", "cod", "boxes", "offsets", "layers"):
+                bad.append(ast.unparse(x))
+    ctx.ob("R05.6", "discopy.rewriting.InterchangerError.__init__", not bad, found=sorted(set(bad)) or "formats its arguments with str()", required="only attributes every diagram has (a box of a layer may be a composite "
+           "diagram, e.g. after foliation): otherwise the refusal raises AttributeError instead of InterchangerError", mod=M, node=fn, sig="refusal-ctor")
+
+
 def check(ctx):
     m = ctx.model
     fn = m.func(FN)
@@ -118,10 +173,14 @@ def check(ctx):
     ctx.rule("R05.2", "on the generic instance of its configuration each branch produces the exchanged pair of layers, "
                       "which compose with layers[:i] and layers[i+2:]; offsets equal |left|; boxes/offsets/layers spliced alike; dom/cod kept")
     ctx.rule("R05.3", "0 <= i, j < len(self) is tested (IndexError) before any indexing; i == j returns self")
+    ctx.rule("R05.5", "the result is built as a monoidal Diagram and upgraded to the class of the argument")
+    ctx.rule("R05.6", "the refusal (InterchangerError) can be constructed for any pair of boxes of a layer")
     ctx.rule("R05.4", "long moves telescope: step k exchanges (i∓k, i∓k∓1), consecutive steps chain, the last ends at j")
     params = [a.arg for a in fn.args.args]
     ctx.need(len(params) >= 4, "interchange(self, i, j, left) signature changed: %s" % params)
     self_, i_, j_, flag = params[:4]
+    check_result_class(ctx, m, fn, self_)
+    check_refusal_ctor(ctx, m)
     if_node, chain, orelse = find_chain(fn)
     ctx.need(chain is not None, "no if/elif chain building Layer(...) values in interchange")
     idx = fn.body.index(if_node)
@@ -372,6 +431,8 @@ def check(ctx):
     ctx.ob("R05.4", FN + ":adjacent-downward", ok, found=[ast.unparse(s) for s in swap] or "no `if j < i: i, j = j, i`",
            required="a downward adjacent move is the exchange of the same pair (i, j swapped)", mod=M,
            node=swap[0] if swap else fn, sig="adjacent-swap")
+    ctx.floor("R05.5", 1)
+    ctx.floor("R05.6", 1)
     ctx.floor("R05.1", 11)
     ctx.floor("R05.2", 3)
     ctx.floor("R05.3", 10)
